@@ -1262,10 +1262,15 @@ def restShow (st : State) (method ctype res tail body : String) : Option (State 
 to the model: that is the property -/
 def step (s : State) (toks : List String) : State × String :=
   match toks with
-  | ["ws", _thr, client, path, buf] =>
+  | ["ws", _thr, client, path0, buf] =>
+    -- from the URL the client builds to the handler table (`route`, `c14_route_round_trip`): clients `x…`
+    -- name a service nobody registered, all others the service of the run
+    let asked := if client.startsWith "x" then "VerifC14NoSuchService" else "VerifC14"
+    let routed := route ["VerifC14".toList] (clientURL asked.toList path0.toList)
+    let path := match routed with | some (_, p) => String.ofList p | none => path0
     match Util.unhex buf with
     | some b =>
-      if client.startsWith "x" then
+      if routed.isNone then
         -- a client for a service name no service is registered under: the catch-all handler of the
         -- multiplexer upgrades and closes with 4001 (websocket.go:131-154); no handler is reached
         (sendThrough s client path b false, "close 4001 noservice")
